@@ -90,6 +90,9 @@ def run_check(prop_id, tier, seed, procs=None, only=None):
                                                    secs=0, kind='engine', reason=repr(e))], {}, 0.0
                 results[g] = obs; infos[g] = info; secs[g] = dt
 
+    import shutil
+    if not only:
+        shutil.rmtree(os.path.join(ROOT, 'replays', prop_id), ignore_errors=True)
     allobs = [o for g, _ in groups for o in results.get(g, [])]
     twins = [o for o in allobs if o['kind'] == 'twin']
     xchecks = [o for o in allobs if o['kind'] == 'xcheck']
